@@ -1743,6 +1743,30 @@ impl BytecodeVM {
         self.set_reg(frame.return_register, final_value);
     }
 
+    /// The function whose `prototype` the instances of `ctor` get: `ctor` itself, or the target
+    /// of a (chain of) bound function(s). An arrow function constructs nothing.
+    fn unwrap_bound_constructor(ctor: &Gc<JsObject>) -> Result<Gc<JsObject>, JsError> {
+        use crate::value::JsFunction;
+        let mut current = ctor.cheap_clone();
+        loop {
+            let next = match &current.borrow().exotic {
+                ExoticObject::Function(JsFunction::Bound(bound)) => bound.target.cheap_clone(),
+                ExoticObject::Function(JsFunction::Bytecode(func))
+                    if func
+                        .chunk
+                        .function_info
+                        .as_ref()
+                        .is_some_and(|info| info.is_arrow) =>
+                {
+                    return Err(JsError::type_error("Arrow function is not a constructor"));
+                }
+                _ => break,
+            };
+            current = next;
+        }
+        Ok(current)
+    }
+
     /// Convert an error to a guarded JS value (takes ownership to avoid re-guarding)
     fn error_to_guarded(&self, interp: &mut Interpreter, error: JsError) -> Guarded {
         match error {
@@ -3253,9 +3277,11 @@ impl BytecodeVM {
                 // Create a new object
                 let new_obj = interp.create_object(&guard);
 
-                // Get the constructor's prototype
+                // Get the constructor's prototype (a bound function constructs its target)
                 let proto_key = PropertyKey::String(interp.intern("prototype"));
-                if let Some(JsValue::Object(proto)) = ctor.borrow().get_property(&proto_key) {
+                let proto_holder = Self::unwrap_bound_constructor(&ctor)?;
+                if let Some(JsValue::Object(proto)) = proto_holder.borrow().get_property(&proto_key)
+                {
                     new_obj.borrow_mut().prototype = Some(proto.cheap_clone());
                 }
 
@@ -3331,9 +3357,11 @@ impl BytecodeVM {
                 // Create a new object
                 let new_obj = interp.create_object(&guard);
 
-                // Get the constructor's prototype
+                // Get the constructor's prototype (a bound function constructs its target)
                 let proto_key = PropertyKey::String(interp.intern("prototype"));
-                if let Some(JsValue::Object(proto)) = ctor.borrow().get_property(&proto_key) {
+                let proto_holder = Self::unwrap_bound_constructor(&ctor)?;
+                if let Some(JsValue::Object(proto)) = proto_holder.borrow().get_property(&proto_key)
+                {
                     new_obj.borrow_mut().prototype = Some(proto.cheap_clone());
                 }
 
